@@ -330,9 +330,21 @@ theorem pinv_mintr (S : PSt) (i : Pid) (h : PInv S) : PInv (mintr S i) := by
         split
         · simp [CtlOk, okOut]
         · simp [CtlOk, okOut]; omega
-      | acq k => simp only []; rw [hc]; trivial
+      | acq k =>
+        simp only []
+        split
+        · split
+          · simp [CtlOk, okOut]
+          · simp [CtlOk, okOut]; omega
+        · rw [hc]; trivial
       | unw a b c => simp only []; rw [hc] at hok ⊢; exact hok
-      | rel a b c o => simp only []; rw [hc] at hok ⊢; exact hok
+      | rel a b c o =>
+        rw [hc] at hok
+        simp only []
+        repeat' split
+        all_goals first
+          | (simp only [setCtl_ctl_same, CtlOk]; exact ⟨hok.1, by simp [okOut]⟩)
+          | (rw [hc]; exact hok)
       | fin o => simp only []; rw [hc] at hok ⊢; exact hok
     · rw [e.ctlOther p hp]; exact h.ok p
   · unfold mintr
@@ -352,9 +364,53 @@ theorem pinv_mintr (S : PSt) (i : Pid) (h : PInv S) : PInv (mintr S i) := by
       all_goals apply key
       all_goals intro d hd
       all_goals simp_all [owed]
-    | acq k => exact h.owe
+    | acq k =>
+      simp only []
+      split
+      · rename_i hrest
+        -- the process is about to call mkdir on path element k: it is not engaged with that stack
+        have key : ∀ c' : Ctl, (∀ d, d ∈ (S.path i).take k → d ∈ owed c' (S.path i)) → Owe (setCtl S i c') := by
+          intro c' hsub p d he
+          have := h.owe p d he
+          by_cases hp : p = i
+          · subst hp
+            rw [hc] at this
+            simp only [setCtl_ctl_same, setCtl_path]
+            simp only [owed] at this
+            unfold atRestAcq at hrest
+            cases hg : (S.path p)[k]? with
+            | none => simp [hg] at hrest
+            | some d0 =>
+              by_cases hd : d = d0
+              · subst hd
+                simp only [hg] at hrest
+                have he' : engaged ((S.comp d).pc p) = true := he
+                cases hpc : (S.comp d).pc p <;> simp [hpc] at hrest <;> simp [hpc, engaged] at he'
+              · exact hsub d (mem_take_of_mem_take_succ hg this hd)
+          · simpa [setCtl_ctl_other _ _ _ _ hp] using this
+        split
+        · rename_i hk0
+          apply key
+          intro d hd
+          subst hk0
+          simp at hd
+        · apply key
+          intro d hd
+          simpa [owed] using hd
+      · exact h.owe
     | unw a b c => exact h.owe
-    | rel a b c o => exact h.owe
+    | rel a b c o =>
+      simp only []
+      repeat' split
+      all_goals first
+        | exact h.owe
+        | (intro p d he
+           have := h.owe p d he
+           by_cases hp : p = i
+           · subst hp
+             rw [hc] at this
+             simpa only [setCtl_ctl_same, setCtl_path, owed] using this
+           · simpa [setCtl_ctl_other _ _ _ _ hp] using this)
     | fin o => exact h.owe
 
 theorem pinv_mrunE (S : PSt) (evs : List MEv) (h : PInv S) : PInv (mrunE S evs) := by
